@@ -123,7 +123,18 @@ def check(F, rep, tier):
             if badw or len(incs) != 1: rep.bad("R06.2", "slot-counter-writes", "the major/minor/patch slot counter is written other than by `= 0` at entry and one `+= 1` under count < 3: %s" % [(b, k) for b, k, g in (badw or writes)], f.where())
             else: rep.ok("R06.2", "slot counter: initialised to 0, incremented by 1 only after a slot write (under count < 3)", sample=str(writes), nontrivial_key="counter")
         # the rest goes to the pre-release list
-        if any((mir.callee(t) or "").endswith("add_flattened_to_prerelease") for bi, t in f.calls()): rep.ok("R06.2", "remaining core components flow to add_flattened_to_prerelease")
+        fi = mir.inlined(F, f, depth=4, ok=lambda F_, caller, cp, g: g is not None and g.kind != "closure" and "semver::from_zerv" in cp)
+        def _push_fields(fn_, t):
+            out = set()
+            for o in mir.trace_op(fn_, t[2][0]):
+                if o.fields(): out.add(o.fields()[-1])
+            for o in mir.trace_op(fn_, t[2][0], transparent=()):
+                if o.kind == "call" and (mir.callee(fn_.blocks[o.data]["t"]) or "").endswith("get_or_insert_with"):
+                    for o2 in mir.trace_op(fn_, fn_.blocks[o.data]["t"][2][0], transparent=()):
+                        if o2.fields(): out.add(o2.fields()[-1])
+            return out
+        to_pre = any("pre_release" in _push_fields(fi, t) for bi, t in fi.calls() if (mir.callee(t) or "").endswith("Vec::<T, A>::push") or (mir.callee(t) or "").endswith("::extend"))
+        if to_pre: rep.ok("R06.2", "remaining core components are pushed to the pre-release identifiers")
         else: rep.bad("R06.2", "semver-core-rest", "non-integer / extra core components are not added to the pre-release identifiers", f.where())
     ppc = [f for f in F.find("pep440::from_zerv::<impl crate::version::pep440::core::PEP440>::process_core")]
     if rep.anchor("R06.2", "PEP440::process_core", ppc):
